@@ -254,8 +254,12 @@ def check_windowed_stager(run, it):
     tag = "stagers.WindowedWarmUpStager.stages"
     q = "WindowedWarmUpStager.stages"
     run.function("mici.stagers.WindowedWarmUpStager.stages")
-    it.loop_specs[(q, 0)] = LoopSpec(_while_inv, _while_havoc, _while_variant)
-    it.loop_specs[(q, 1)] = LoopSpec(_for_inv, _for_havoc, on_exit=_for_on_exit, on_body=_for_on_body)
+    import ast as _ast
+
+    def _is_window_loop(nd):
+        return isinstance(nd, _ast.For) and any(isinstance(x, _ast.Name) and x.id == "slow_windows" for x in _ast.walk(nd.iter))
+    it.loop_specs[(q, 0)] = LoopSpec(_while_inv, _while_havoc, _while_variant, anchor=lambda nd: isinstance(nd, _ast.While))
+    it.loop_specs[(q, 1)] = LoopSpec(_for_inv, _for_havoc, on_exit=_for_on_exit, on_body=_for_on_body, anchor=_is_window_loop)
 
     def harness(ctx):
         adapters, trace_funcs, twu, n_w, n_m = _inputs(ctx)
